@@ -203,7 +203,8 @@ def check_binary(prog: Program, rep: Report, rule: str) -> None:
             try:
                 for c1, c2 in itertools.product(ins, repeat=2):
                     env = {t_name: SelfObj(AV([c1], 'tensor'), AV([c1], 'scalar')), u_name: SelfObj(AV([c2], 'tensor'), AV([c2], 'scalar'))}
-                    got = as_av(Interp(prog, m).eval(dflt, env), dflt)
+                    from ..util import inline_temps as _it
+                    got = as_av(Interp(prog, m).eval(_it(m.node, dflt), env), dflt)       # `default = ...` named first
                     ref = apply(prim, AV([c1], 'tensor'), AV([c2], 'tensor'), mode='tensor')
                     if got.may_raise:
                         badd.append(f"({c1},{c2}) raises: {got.why}")
@@ -232,7 +233,8 @@ def check_binary(prog: Program, rep: Report, rule: str) -> None:
             try:
                 for c1, c2 in itertools.product(float_in(), repeat=2):
                     env = {t_name: SelfObj(AV([c1], 'tensor'), AV([c1], 'scalar')), u_name: SelfObj(AV([c2], 'tensor'), AV([c2], 'scalar'))}
-                    got = as_av(Interp(prog, m).eval(dflt, env), dflt)
+                    from ..util import inline_temps as _it
+                    got = as_av(Interp(prog, m).eval(_it(m.node, dflt), env), dflt)       # `default = ...` named first
                     ref = apply(prim, AV([c1], 'tensor'), AV([c2], 'tensor'), mode='tensor')
                     if got.may_raise:
                         badd.append(f"({c1},{c2}) raises: {got.why}")
